@@ -78,17 +78,30 @@ class Harness:
             fs, fu = ex.submit(build_snmp, stage), ex.submit(build_udp, stage)
             self.h = {"snmp": ProcHarness([fs.result()], env=HENV), "udp": ProcHarness([fu.result()], env=HENV)}
         self.crashes = 0
+        self.stage = stage
+        self.e2e = None
 
     def run(self, lines):
-        groups = {"snmp": [], "udp": []}
+        groups = {"snmp": [], "udp": [], "e2e": []}
         where = []
         for l in lines:
-            g = "udp" if l[:2] in ("i ", "h ") else "snmp"
+            g = "udp" if l[:2] in ("i ", "h ") else "e2e" if l[:2] == "e " else "snmp"
             where.append((g, len(groups[g])))
             groups[g].append(l)
-        outs = {g: (self.h[g].run(ls) if ls else []) for g, ls in groups.items()}
-        self.crashes = sum(h.crashes for h in self.h.values())
+        outs = {g: (self.h[g].run(ls) if ls else []) for g, ls in groups.items() if g != "e2e"}
+        outs["e2e"] = []
+        if groups["e2e"]:
+            if self.e2e is None:      # the address-sanitized squid is built and started only when an end-to-end line shows up (thorough tier)
+                from harness import c39_e2e
+                self.e2e = c39_e2e.E2E(self.stage)
+            outs["e2e"] = self.e2e.run(groups["e2e"])
+        self.crashes = sum(h.crashes for h in self.h.values()) + (self.e2e.crashes if self.e2e else 0)
         return [outs[g][k] for g, k in where]
+
+    def close(self):
+        if self.e2e is not None:
+            self.e2e.close()
+            self.e2e = None
 
 
 def build(stage):
@@ -142,6 +155,16 @@ class Node:
         sub = self.content[i].cut_before(path[1:])
         kids = [c for c in self.content[:i]] + ([sub] if sub is not None else [])
         return Node(self.tag, kids, self.form, self.lie)
+
+
+class Raw(Node):
+    """octets that are not a complete TLV (e.g. an identifier and a long-form count octet with nothing behind them)"""
+
+    def __init__(self, data):
+        Node.__init__(self, 0, data)
+
+    def enc(self):
+        return self.content
 
 
 def enc_int(v, width=None):
@@ -215,7 +238,7 @@ def gen_value(rng, big=0):
 def gen_message(rng, nvars=None, fill=None):
     """-> Node tree of an SNMP message; fill = total size wanted (a string value is stretched)"""
     ver = rng.choice([0, 0, 1, 1, 2, 3, -1, 255, 70000])
-    comm = rng.choice([b"public", b"public", b"", b"x", bytes(rng.range(1, 255) for _ in range(rng.choice([5, 126, 127, 128, 129]))), b"pub\0lic"])
+    comm = rng.choice([b"public", b"public", b"", b"x", bytes(rng.range(1, 255) for _ in range(rng.choice([5, 126, 127, 128, 129]))), b"private", b"pub\0lic" if rng.chance(1, 3) else b"public"])
     cmd = rng.choice([0xa0, 0xa0, 0xa1, 0xa1, 0xa5, 0xa2, 0xa3, 0xa4, 0xa6, 0xa7, 0x30, 0x02])
     ints = [Node(2, enc_int(rng.choice([0, 1, 2, 5, -1, 127, 128, 65536, 2 ** 31 - 1, -2 ** 31, rng.below(2 ** 31)])),
                  0 if not rng.chance(1, 8) else rng.range(1, 4)) for _ in range(3)]
@@ -324,16 +347,34 @@ def cases_snmp(rng, tier):
                 e = c.enc()
                 if len(e) >= 4080:
                     yield snmp_line(e, tail)
-    # a message ending in a variable binding without a value, stretched to every size near the buffer end
+    # a message whose last octets are the beginning of an object (identifier [+ long-form count octet [+ some length octets]]),
+    # stretched to every size near the buffer end
+    def fit(build, size):
+        k = size - len(build(0).enc())      # all enclosing lengths are written in the two-octet long form: one octet more = one more
+        if k < 0:
+            return None
+        m = build(k).enc()
+        return m if len(m) == size else None
+
     for size in range(4088, 4097):
-        last = Node(0x30, [Node(6, enc_oid(SQUID_OID))])
-        for k in range(0, 4200):
+        for frag in [b"\x30", b"\x30\x81", b"\x30\x82", b"\x30\x83", b"\x30\x84", b"\x30\x84\x00", b"\x30\x83\x00\x00", b"\x30\x85", b"\x30\x80",
+                     b"\x30\x02\x06", b"\x30\x03\x06\x84", b"\x30\x04\x06\x00\x02", b"\x30\x04\x06\x00\x02\x84"]:
+            def build(k, frag=frag):
+                first = Node(0x30, [Node(6, enc_oid(SQUID_OID)), Node(4, b"B" * k, 2)], 2)
+                return Node(0x30, [Node(2, b"\0"), Node(4, b"public"), Node(0xa1, [Node(2, b"\2"), Node(2, b"\0"), Node(2, b"\0"), Node(0x30, [first, Raw(frag)], 2)], 2)], 2)
+            m = fit(build, size)
+            if m is not None:
+                yield snmp_line(m, rng.choice([b"", b"\xff\xff\xff\xff"]))
+    # a message ending in a variable binding without a value / a PDU without variable bindings / without error-index ...
+    for size in range(4088, 4097):
+        def build(k):
             first = Node(0x30, [Node(6, enc_oid(SQUID_OID)), Node(4, b"A" * k, 2)], 2)
-            m = Node(0x30, [Node(2, b"\0"), Node(4, b"public"), Node(0xa0, [Node(2, b"\1"), Node(2, b"\0"), Node(2, b"\0"), Node(0x30, [first, last], 2)], 2)], 2)
-            if len(m.enc()) == size:
-                for tail in ([b"", b"\x84\xff\xff\xff\xff", b"\x7f"] if size >= 4095 else [b""]):
-                    yield snmp_line(m.enc(), tail)
-                break
+            last = Node(0x30, [Node(6, enc_oid(SQUID_OID))])
+            return Node(0x30, [Node(2, b"\0"), Node(4, b"public"), Node(0xa0, [Node(2, b"\1"), Node(2, b"\0"), Node(2, b"\0"), Node(0x30, [first, last], 2)], 2)], 2)
+        m = fit(build, size)
+        if m is not None:
+            for tail in ([b"", b"\x84\xff\xff\xff\xff", b"\x7f"] if size >= 4093 else [b""]):
+                yield snmp_line(m, tail)
     # --- random datagrams
     for _ in range(300 if thorough else 60):
         yield snmp_line(rng.bytes(rng.choice([1, 2, 3, 5, 8, 20, 40, 100])))
@@ -536,11 +577,104 @@ def cases_htcp(rng, tier):
         yield htcp_line(rng.bytes(rng.choice([1, 3, 4, 11, 12, 13, 20, 40, 100])), b"", rng.choice(["-", "m"]))
 
 
+# ------------------------------------------------------------------------------------------------ end to end (thorough tier)
+
+def snmp_req(cmd, oid, community=b"public", ver=0, reqid=1, value=None, bulk=(0, 10)):
+    a, b = (bulk if cmd == 0xa5 else (0, 0))
+    return Node(0x30, [Node(2, enc_int(ver)), Node(4, community),
+                       Node(cmd, [Node(2, enc_int(reqid)), Node(2, enc_int(a)), Node(2, enc_int(b)),
+                                  Node(0x30, [Node(0x30, [Node(6, enc_oid(oid)), value or Node(5, b"")])])])]).enc()
+
+
+def cases_e2e(rng):
+    """datagrams for the live squid: everything that goes deep into the handlers (answered queries, MIB walks, hits) plus a sample
+    of the in-process streams; the lines that are known to kill an address-sanitized squid come last and are few"""
+    import struct
+    hit = None   # the harness caches http://127.0.0.1:<origin>/sc39/cached; the port is not known here: use wildcards below
+    out = []
+    # SNMP: walk the MIB with GETNEXT/GETBULK from many starting points, GET of every column with good/bad instances
+    base = [1, 3, 6, 1, 4, 1, 3495, 1]
+    starts = [[1, 3], [1, 3, 6, 1, 4, 1, 3495], base, base + [1], base + [2], base + [3], base + [4], base + [5], [1, 3, 6, 1, 2, 1, 1], [2, 39, 1], [0, 0], []]
+    for grp in range(1, 6):
+        for a in range(0, 12):
+            for b in range(0, 8):
+                starts.append(base + [grp, a, b])
+    for grp, sub in [(3, 2), (4, 1), (5, 1), (5, 2)]:
+        for col in range(0, 16):
+            for inst in ([], [0], [1], [2], [255], [2 ** 32 - 1], [127, 0, 0, 1], [1, 127, 0, 0, 1], [2] + [0] * 15 + [1], [127, 0, 0], [1, 2, 3, 4, 5], [300, 300, 300, 300]):
+                starts.append(base + [grp, sub, 1, col] + inst)
+                starts.append(base + [grp, sub, 2, 1, col] + inst)
+                starts.append(base + [grp, sub, 3, 1, col] + inst)
+    for o in starts:
+        for cmd in (0xa0, 0xa1, 0xa5):
+            out.append(("s", snmp_req(cmd, o, reqid=rng.below(2 ** 31))))
+    for o in starts[:40]:
+        out.append(("s", snmp_req(0xa1, o, community=b"private")))
+        out.append(("s", snmp_req(0xa3, o, value=Node(2, b"\5"))))     # SET
+        out.append(("s", snmp_req(0xa1, o, ver=1)))
+        out.append(("s", snmp_req(0xa2, o)))                             # a RESPONSE sent to the agent
+    # many variables in one request (the answer may not fit the 4096-octet output buffer)
+    for n in (2, 10, 50, 120, 200, 300):
+        vbs = [Node(0x30, [Node(6, enc_oid(base + [3, 1, 1 + (i % 14), 0])), Node(5, b"")]) for i in range(n)]
+        for cmd in (0xa0, 0xa1):
+            out.append(("s", Node(0x30, [Node(2, b"\0"), Node(4, b"public"), Node(cmd, [Node(2, b"\1"), Node(2, b"\0"), Node(2, b"\0"), Node(0x30, vbs)])]).enc()))
+    # ICP: queries (answered: miss / hit / denied for unparsable URLs), replies "from the configured peer"
+    for url in URLS + [b"http://127.0.0.1:1/sc39/cached", b"http://example.com/" + b"x" * 8000]:
+        for ver in (2, 3):
+            out.append(("i", icp_msg(1, ver, url, reqnum=rng.below(2 ** 31), flags=rng.choice([0, 0x80000000, 0x40000000]))))
+            for op in (2, 3, 4, 11, 21, 22, 23, 10, 200):
+                out.append(("i", icp_msg(op, ver, url, reqnum=rng.choice([0, 1, 8191, 2 ** 31 + 5]))))
+    # HTCP: TST / CLR requests that are allowed here, responses with and without detail
+    for _ in range(150):
+        spec, _ = gen_spec(rng)
+        for minor in (0, 1):
+            out.append(("h", htcp_msg(1, 0, 1, spec, msgid=rng.below(2 ** 32), minor=minor)))
+            out.append(("h", htcp_msg(4, 0, rng.below(2), b"\0" + bytes([rng.below(4)]) + spec, msgid=rng.below(2 ** 32), minor=minor)))
+        out.append(("h", htcp_msg(1, 1, 0, gen_detail(rng), msgid=rng.choice([0, 1, 5]))))
+        out.append(("h", htcp_msg(1, 1, 1, b"", msgid=rng.choice([0, 1, 5]))))
+    good = cstr16(b"GET") + cstr16(b"http://example.com/") + cstr16(b"1.1")
+    for hd in [b"", b"Host: example.com\r\n\r\n", b"Range: bytes=0-\r\nIf-None-Match: *\r\n\r\n", b"A: " + b"b" * 7000 + b"\r\n\r\n", b"\xff" * 100, b"Cache-Control: " + b"x=1," * 500 + b"\r\n"]:
+        out.append(("h", htcp_msg(1, 0, 1, good + cstr16(hd))))
+        out.append(("h", htcp_msg(4, 0, 1, b"\0\1" + good + cstr16(hd))))
+    # a sample of the in-process streams
+    sample = []
+    for l in cases_icp(rng.fork("icp"), "quick"):
+        sample.append(("i", unhx(l.split(" ")[1])))
+    for l in cases_htcp(rng.fork("htcp"), "quick"):
+        sample.append(("h", unhx(l.split(" ")[1])))
+    late = []
+    for l in cases_snmp(rng.fork("snmp"), "quick"):
+        p = l.split(" ")
+        if p[0] != "s":
+            continue
+        dg = unhx(p[1])
+        (late if len(dg) >= SNMP_BUF - 3 else sample).append(("s", dg))
+    rng.shuffle(sample)
+    out += sample[:2500]
+    for proto, dg in out:
+        if len(dg) <= 65000:
+            yield "e %s %s" % (proto, hx(dg))
+    # buffer-filling SNMP datagrams: a handful (each known-finding hit costs a squid restart), among them the two shapes of the
+    # corpus witnesses (a last variable binding without value in 4095 octets; a last `30 84` in 4093 octets)
+    rng.shuffle(late)
+    picked = late[:6]
+    for size, frag in ((4095, None), (4093, b"\x30\x84"), (4094, b"\x30\x83")):
+        def build(k, frag=frag):
+            first = Node(0x30, [Node(6, enc_oid(SQUID_OID)), Node(4, b"C" * k, 2)], 2)
+            last = Raw(frag) if frag else Node(0x30, [Node(6, enc_oid(SQUID_OID))])
+            return Node(0x30, [Node(2, b"\0"), Node(4, b"public"), Node(0xa0, [Node(2, b"\1"), Node(2, b"\0"), Node(2, b"\0"), Node(0x30, [first, last], 2)], 2)], 2)
+        k = size - len(build(0).enc())
+        picked.append(("s", build(k).enc()))
+    for proto, dg in picked:
+        yield "e %s %s" % (proto, hx(dg))
+
+
 def cases(rng, tier):
-    # streams are interleaved so that the first MAX_REPORT unexplained failures are not all from one protocol
     yield from cases_icp(rng.fork("icp"), tier)
     yield from cases_htcp(rng.fork("htcp"), tier)
     yield from cases_snmp(rng.fork("snmp"), tier)
+    if tier == "thorough":
+        yield from cases_e2e(rng.fork("e2e"))
 
 
 # ------------------------------------------------------------------------------------------------ oracle (the property, not the model)
@@ -560,6 +694,9 @@ BUF = {"s": SNMP_BUF, "S": SNMP_BUF, "i": ICP_BUF, "h": HTCP_BUF}
 
 def dg_len(line):
     p = line.split(" ")
+    if p[0] == "e":
+        n = 0 if p[2] == "-" else len(p[2]) // 2
+        return min(n, BUF[p[1]] - 1)
     n = 0 if p[1] == "-" else len(p[1]) // 2
     return min(n, BUF[p[0]] - 1)      # recvfrom is given one octet less than the buffer
 
@@ -570,6 +707,10 @@ def oracle(line, impl):
         return "sanitizer/abort: " + impl
     if impl.startswith("bad-"):
         return "harness rejected the line: " + impl
+    if impl.startswith("reject:"):
+        return None          # an empty SNMP datagram: snmpHandleUdp does not look at it (len > 0 is required)
+    if op == "e":
+        return None if impl.startswith("alive") else "the address-sanitized squid did not survive the datagram / stopped serving HTTP: " + impl
     d = parse_out(impl)
     if "asan" in d:
         return "AddressSanitizer report while handling the datagram: %s (over=%s)" % (d["asan"], d.get("over"))
@@ -585,6 +726,8 @@ def oracle(line, impl):
 
 
 def compare(line, impl, model):
+    if line.startswith("e "):
+        return True          # judged by the oracle alone
     # the model predicts neither sanitizer reports (the oracle's business) nor what happens once the URL has been handed to
     # the URL parser / ACLs / neighbor tables (behind the " |")
     i = re.sub(r" asan=\S+", "", impl.split(" |")[0])
@@ -597,17 +740,28 @@ def compare(line, impl, model):
 
 
 def classify(line, impl, why):
+    """the one known finding, narrowly: an SNMP datagram that leaves fewer than four octets of the receive buffer unused, whose
+    decoding *fails* (the over-read is always the look at the identifier/length octets of an object that is not there), with
+    2..6 octets touched behind the datagram and exactly that many minus the unused octets behind the buffer"""
     p = line.split(" ")
-    if p[0] == "s" and dg_len(line) == SNMP_BUF - 1:
+    n = dg_len(line)
+    if p[0] == "e":
+        # the same finding seen end to end: ASan stops squid with a global-buffer-overflow read in asn_parse_length/asn_parse_* on snmpHandleUdp's buf
+        if p[1] == "s" and SNMP_BUF - 3 <= n <= SNMP_BUF - 1 and impl.startswith("abort:squid-died") and "global-buffer-overflow" in impl:
+            return FINDING_SNMP
+        return None
+    if p[0] == "s" and SNMP_BUF - 3 <= n <= SNMP_BUF - 1 and why and ("past the" in why or "AddressSanitizer" in why):
         d = parse_out(impl)
         over = int(d.get("over", "0")) if d.get("over", "0").isdigit() else 0
-        if impl.startswith("fail ") and 2 <= over <= 6 and ("asan" not in d or d["asan"] == "use-after-poison"):
+        if impl.startswith("fail ") and 2 <= over <= 6 and n + over > SNMP_BUF and ("asan" not in d or d["asan"] == "use-after-poison"):
             return FINDING_SNMP
     return None
 
 
 def shrink(line):
     p = line.split(" ")
+    if p[0] == "e":
+        return               # every candidate costs a squid restart
     if len(p) < 2 or p[1] == "-":
         return
     b = unhx(p[1])
@@ -626,6 +780,8 @@ def shrink(line):
 
 def nontrivial(line, impl, model):
     op = line[0]
+    if op == "e":
+        return "reply=" in impl and "reply=none" not in impl
     if op in "sS":
         return impl.startswith("ok ") or (impl.startswith("fail") and "dbg=0" in impl) or (impl.startswith("fail") and "dbg=8" in impl)
     if op == "i":
@@ -635,6 +791,8 @@ def nontrivial(line, impl, model):
 
 def tag(line, impl, model):
     op = line.split(" ")[0]
+    if op == "e":
+        return "e %s %s" % (line.split(" ")[1], "replied" if ("reply=" in impl and "reply=none" not in impl) else impl.split(" ")[0])
     d = parse_out(impl)
     if op == "i":
         m = re.search(r" (ignore:\w+|badlen|url:\w+|url=|reply-url=|unknown-op)", impl)
